@@ -128,6 +128,12 @@ func (gc *GarbageCollector) GarbageCollectWatchesNow(ctx context.Context) error 
 
 	stop := make([]engine.WatchID, 0)
 	for _, wid := range running {
+		// Only composed resource watches are subject to garbage collection.
+		// The watches for the XR itself and for composition revisions are
+		// started once by the XRD controller and must keep running.
+		if wid.Type != engine.WatchTypeComposedResource {
+			continue
+		}
 		if !used[wid] {
 			stop = append(stop, wid)
 		}
